@@ -422,6 +422,15 @@ func getTcbInfo(fmspc string, getter trust.HTTPSGetter, collateral *Collateral) 
 		}
 	}
 	collateral.TcbInfoBody = tcbInfoRawBody
+	// Decode the values from the exact bytes whose signature gets verified, so that no other
+	// (unsigned) member of the response can supply them.
+	var tcbInfo pcs.TcbInfo
+	if err := json.Unmarshal(tcbInfoRawBody, &tcbInfo); err != nil {
+		return &trust.AttestationRecreationErr{
+			Msg: fmt.Sprintf("unable to unmarshal tcbInfo: %v", err),
+		}
+	}
+	collateral.TdxTcbInfo.TcbInfo = tcbInfo
 	return nil
 }
 
@@ -457,6 +466,15 @@ func getQeIdentity(getter trust.HTTPSGetter, collateral *Collateral) error {
 		}
 	}
 	collateral.EnclaveIdentityBody = qeIdentityRawBody
+	// Decode the values from the exact bytes whose signature gets verified, so that no other
+	// (unsigned) member of the response can supply them.
+	var enclaveIdentity pcs.EnclaveIdentity
+	if err := json.Unmarshal(qeIdentityRawBody, &enclaveIdentity); err != nil {
+		return &trust.AttestationRecreationErr{
+			Msg: fmt.Sprintf("unable to unmarshal enclaveIdentity: %v", err),
+		}
+	}
+	collateral.QeIdentity.EnclaveIdentity = enclaveIdentity
 	return nil
 }
 
